@@ -45,6 +45,13 @@ pub trait VxIterExt<T>: Sized {
             old(self).vx_seq().len() > 0 ==> r == Some(old(self).vx_seq()[0]) && final(self).vx_seq() == old(self).vx_seq().drop_first(),
     ;
 
+    /// Vec::drain(..): all elements, leaving the vector empty (N11: `.drain(..)` is renamed to this)
+    fn vx_drain_all(&mut self, r: core::ops::RangeFull) -> (res: Vec<T>)
+        ensures
+            res@ == old(self).vx_seq(),
+            final(self).vx_seq() == Seq::<T>::empty(),
+    ;
+
     /// Iterator::map, element-wise in order (A-iter: the closure has no side effects)
     fn map<U, F: Fn(T) -> U>(self, f: F) -> (r: Vec<U>)
         requires
@@ -114,6 +121,11 @@ impl<T> VxIterExt<T> for Vec<T> {
     #[verifier::external_body]
     fn next(&mut self) -> (r: Option<T>) {
         if self.is_empty() { None } else { Some(self.remove(0)) }
+    }
+
+    #[verifier::external_body]
+    fn vx_drain_all(&mut self, r: core::ops::RangeFull) -> (res: Vec<T>) {
+        self.drain(r).collect()
     }
 
     #[verifier::external_body]
